@@ -22,7 +22,7 @@ global size_of usize == 8;
 //@include prelude/blanket_std.rs
 //@include prelude/c13left_std.rs
 //@include prelude/wm_more_std.rs
-//@include prelude/map_ctor_std.rs
+//@import units/inc/map_arcs.inc.rs
 
 //@import units/inc/map_core.inc.rs
 // `trivial` / `empty` / `From<rows>`: called by the order-1 branch of the generators in map_more.inc.rs
